@@ -287,7 +287,13 @@ class Gen:
                 else:
                     xv = self.expr(d - 2, 0)
                 xs.append(xv)
-                yv = self.lit() if r.random() < 0.7 else self.expr(d - 2, 0)
+                z = r.random()
+                if z < 0.45 or not self.good_ids:
+                    yv = self.lit()
+                elif z < 0.8:
+                    yv = ['pv', r.choice(self.good_ids)]      # a table whose y's are port values (setpoints)
+                else:
+                    yv = self.expr(d - 2, 0)
                 args += [xv, yv]
             if r.random() < 0.15:
                 args.append(self.lit())               # dangling argument (ignored by the code)
@@ -369,4 +375,57 @@ def gen_case(rng, tier):
             tree = g.expr(maxd - 1)
             tries += 1
     case['expr'] = tree
+    if rng.random() < 0.3:
+        case['steps'] = gen_steps(rng, case)
     return case
+
+
+def ids_in(t, self_id, acc=None):
+    acc = set() if acc is None else acc
+    if t[0] == 'pv':
+        acc.add(t[1])
+    elif t[0] in ('sv', 'sr'):
+        acc.add(self_id)
+    elif t[0] == 'call':
+        for a in t[2]:
+            ids_in(a, self_id, acc)
+    return acc
+
+
+def _step_value(rng, stream, old_tok):
+    """A new value for a port inside a context sequence. A port whose value was small (it may sit in an exponent / shift
+    count / digits position) or that had no value stays small."""
+    if old_tok is None or Gen._is_small(old_tok):
+        return gen_value(rng, 'plain', rng.choice(['smallint', 'smallint', 'frac', 'bool']))
+    return gen_value(rng, stream)
+
+
+def gen_steps(rng, case):
+    """1–3 further contexts for the SAME expression instance: some of the ports the tree reads change value, lose or gain
+    their value, get disabled / enabled; the clock moves. Everything else (role, own port id, tree) stays."""
+    used = sorted(i for i in ids_in(case['expr'], case['self']) if i in case['ports'])
+    steps = []
+    ports = {k: dict(v) for k, v in case['ports'].items()}
+    vals = dict(case['vals'])
+    now = case['now']
+    for _ in range(rng.choice([1, 1, 2, 2, 3])):
+        ports = {k: dict(v) for k, v in ports.items()}
+        vals = dict(vals)
+        pool = used or list(REGISTERED)
+        for pid in rng.sample(pool, min(len(pool), rng.choice([1, 1, 2, 3]))):
+            z = rng.random()
+            if z < 0.70:
+                vals[pid] = _step_value(rng, case['stream'], case['vals'].get(pid))        # new value, same availability
+                if rng.random() < 0.5:
+                    ports[pid]['last'] = _step_value(rng, case['stream'], case['ports'][pid]['last'])
+            elif z < 0.80:
+                vals.pop(pid, None)                                                       # loses its value
+                ports[pid]['last'] = None
+            elif z < 0.90:
+                ports[pid]['en'] = not ports[pid]['en']
+            else:
+                ports[pid]['last'] = _step_value(rng, case['stream'], case['ports'][pid]['last'])
+        if rng.random() < 0.3:
+            now = now + rng.choice([1, 999, 1000, 60000, -5000])
+        steps.append({'ports': ports, 'vals': vals, 'now': now})
+    return steps
